@@ -110,7 +110,7 @@ WaitLine(e) ==
 
 CmdLine(e) ==
   LET c == e.cmd IN
-  CASE c[1] \in {"start", "release", "release2"} -> Ok /\ UNCHANGED <<vars, aux>>     \* a release shows as the body's `end` line
+  CASE c[1] \in {"start", "release", "release2", "consume2"} -> Ok /\ UNCHANGED <<vars, aux>>     \* a release shows as the body's `end` line
     [] c[1] = "sleep" -> Ok /\ sleepTo' = now + c[2] /\ UNCHANGED <<vars, tw, freezeTo>>
     [] c[1] = "release_freeze" -> Ok /\ freezeTo' = Tr.now0 + c[2] + 1 /\ UNCHANGED <<vars, tw, sleepTo>>
     [] c[1] = "send" ->
